@@ -144,8 +144,7 @@ def r05a(ctx):
                 if c in blks and sg(a.term(c).get('fn', '')).endswith('Iterator::next') and a.arg(c, 0) == ivar and a.flow.lty(ivar[1]).startswith('core::ops::range::RangeFrom<'):
                     infeasible += a.dest_variant_edges(c).get('0', [])
             r = a.cfg.reach([head], cut_edges=[e_ for ab in asg for e_ in a.cfg.out_edges(ab)] + latches + infeasible)
-            leak = [(x, y) for (x, y) in exits if x in r and b in a.cfg.reach([y])]
-            okn = okn and not leak
+            okn = okn and b not in r
         ctx.check(okn, 'R05a', fn, 'ret.count', a.loc(b, si), 'the returned count is the loop position at which matching stopped, assigned on every exit')
         hh = f.get('cas_hash')
         ctx.check(hh is not None and hh[0] == 'field' and hh[2] == 'cas_hash' and a.root_call(hh) is not None and sg(a.root_call(hh)[1]).endswith('CASChunkSequenceHeader::deserialize'), 'R05a', fn, 'ret.xorb', a.loc(b, si),
